@@ -173,6 +173,9 @@ class Interp:
                 return K(NAN)
             if t in ('np.pi', 'math.pi', 'np.e', 'math.e'):
                 return K(POS)
+            if t.replace(' ', '') in ('np.finfo(float).eps', 'np.finfo(float).tiny', 'np.finfo(np.float64).eps', 'sys.float_info.epsilon',
+                                      'sys.float_info.min', 'np.finfo(float).smallest_normal', 'np.finfo(float).max', 'sys.float_info.max'):
+                return K(POS)       # positive machine constants
             raise AnalysisError('abstract value of %s unknown' % t)
         if isinstance(n, ast.Subscript):
             # prior_dict[param_name][k]
